@@ -137,8 +137,9 @@ Text(t) ==
   /\ Room(Len(stack))
   /\ MacroFocus => \A j \in 1..Len(lines) : lines[j].k = "define"
   /\ IF Active
-     THEN /\ LineOK(Texts[t], macros)
-          /\ out' = Append(out, [n |-> N, toks |-> <<Tag(N)>> \o ExpandLine(Texts[t], macros)])
+     THEN LET e == Expand(Toks(Texts[t]), macros)
+          IN /\ \A i \in 1..Len(e) : e[i].s # ERR
+             /\ out' = Append(out, [n |-> N, toks |-> <<Tag(N)>> \o Plain(e), used |-> UsedBy(e)])
      ELSE UNCHANGED out
   /\ AddLine(Line("text", 0, 0, "", t)) /\ UNCHANGED <<stack, macros, lits, evald, fin>>
 Finish ==
